@@ -15,7 +15,7 @@ RULE = ('scenario (Hypothesis): 1-3 small programs read through io.read (open st
         'text), printer in {pretty, minify, minify+obfuscate}, source-map arrangement in {none, separate stream, same '
         'object as output, separate factory}, output as open stream or factory, stream names absolute / relative / '
         'relative with directory / missing, sourcemap_normalize_mappings, sourcemap_normalize_paths, '
-        'source_mapping_url in {default, explicit, None}. Streams are recording doubles. Fault points, enumerated '
+        'source_mapping_url in {default, explicit, None}, nodes given as list / tuple / iterator / generator. Streams are recording doubles. Fault points, enumerated '
         'exhaustively per scenario: the scenario is run fault-free to count every factory call, read, parser call, '
         'fragment pulled from the unparser, write and writelines; then re-run once per event with a marker exception '
         'raised at exactly that event. Oracle: fault-free - output text == fresh printer text + trailer; trailer URL '
@@ -171,6 +171,14 @@ def run(sc, fault_at=None):
         elif sc['url'] == 'none':
             kw['source_mapping_url'] = None
         nodes = trees if (len(trees) > 1 or sc.get('as_list')) else trees[0]
+        how = sc.get('nodes_as', 'list')
+        if isinstance(nodes, list):
+            if how == 'tuple':
+                nodes = tuple(nodes)
+            elif how == 'iterator':
+                nodes = iter(nodes)
+            elif how == 'generator':
+                nodes = (n for n in list(nodes))
         cio.write(unparser, nodes, out, sm, **kw)
         res['phase'] = 'done'
     except BaseException as e:
@@ -198,6 +206,9 @@ def check_closing(res, fail):
     return True
 
 
+_EARLIER = []
+
+
 def check_scenario(acc, opens, sc):
     """fault-free run + every fault point.  Returns (number of executions, nontrivial executions)"""
     from calmjs.parse import sourcemap
@@ -216,6 +227,14 @@ def check_scenario(acc, opens, sc):
         return False
     base = run(sc)
     n_events = base['ctl'].n
+    # streams handed out by factories in *earlier* calls of this process must stay closed exactly once
+    for s_ in _EARLIER:
+        if s_.closed != 1:
+            fail('earlier_factory_stream_closed_again', role=s_.role, closed=s_.closed)
+            del _EARLIER[:]
+            return 1, 0
+    del _EARLIER[:]
+    _EARLIER.extend(base['made'][:4])
     execs = 1
     invalid = sc.get('invalid_index')
     # ---- fault-free oracle
@@ -363,6 +382,7 @@ def scenario(draw):
         'norm_paths': draw(st.booleans()),
         'url': draw(st.sampled_from(['default', 'default', 'explicit', 'none'])),
         'as_list': draw(st.booleans()),
+        'nodes_as': draw(st.sampled_from(['list', 'list', 'tuple', 'iterator', 'generator'])),
         'invalid_index': None,
     }
     if draw(st.integers(0, 7)) == 0:
